@@ -99,6 +99,105 @@ theorem typesetFold_sim (h : Sim R I J) (sc : Scope) (attrs operands : List Stri
   | nil => exact hR
   | cons x rest ih => exact ih _ _ (typesetField_sim h sc attrs x s t hR)
 
+/-! ### wave 3: the transcribed built-in glue on two related states -/
+
+theorem foldErrors_sim {ι : Type} (f : σ → ι → σ × Bool) (g : τ → ι → τ × Bool)
+    (hfg : ∀ s t i, R s t → R (f s i).1 (g t i).1 ∧ (f s i).2 = (g t i).2) (items : List ι) (s : σ) (t : τ)
+    (e : Nat) (hR : R s t) :
+    R (foldErrors f items (s, e)).1 (foldErrors g items (t, e)).1 ∧
+    (foldErrors f items (s, e)).2 = (foldErrors g items (t, e)).2 := by
+  induction items generalizing s t e with
+  | nil => exact ⟨hR, rfl⟩
+  | cons i rest ih =>
+    simp only [foldErrors]
+    obtain ⟨hr, hb⟩ := hfg s t i hR
+    cases hI : f s i with
+    | mk s1 b =>
+      cases hJ : g t i with
+      | mk t1 c =>
+        rw [hI, hJ] at hr hb
+        simp only at hr hb
+        subst hb
+        exact ih s1 t1 _ hr
+
+theorem attrLoop_sim (h : Sim R I J) (n : Name) (sc : Scope) (attrs : List (VAttr × Bool)) (s : σ) (t : τ)
+    (hR : R s t) :
+    R (attrLoop I n sc attrs s).1 (attrLoop J n sc attrs t).1 ∧
+    (attrLoop I n sc attrs s).2 = (attrLoop J n sc attrs t).2 := by
+  induction attrs generalizing s t with
+  | nil => exact ⟨hR, rfl⟩
+  | cons a rest ih =>
+    obtain ⟨a, st⟩ := a
+    simp only [attrLoop, h.get s t n hR]
+    cases armAction a st with
+    | makeReadOnly => exact ih _ _ (h.step s t _ hR).1
+    | refuseIfReadOnly =>
+      simp only []
+      split
+      · exact ⟨hR, rfl⟩
+      · exact ih _ _ hR
+    | exportTrue => exact ih _ _ (h.step s t _ hR).1
+    | exportFalse => exact ih _ _ (h.step s t _ hR).1
+
+theorem step_case_sim (h : Sim R I J) (op : Op) (s : σ) (t : τ) (hR : R s t) :
+    ∃ s1 t1 r, I.step s op = (s1, r) ∧ J.step t op = (t1, r) ∧ R s1 t1 := by
+  have hs := h.step s t op hR
+  cases hI : I.step s op with
+  | mk s1 r =>
+    cases hJ : J.step t op with
+    | mk t1 q =>
+      rw [hI, hJ] at hs
+      obtain ⟨hr, he⟩ := hs
+      simp only at hr he
+      subst he
+      exact ⟨s1, t1, r, rfl, rfl, hr⟩
+
+theorem executeField_sim (h : Sim R I J) (sv : SetVariables) (s : σ) (t : τ) (x : String) (hR : R s t) :
+    R (executeField I sv s x).1 (executeField J sv t x).1 ∧
+    (executeField I sv s x).2 = (executeField J sv t x).2 := by
+  unfold executeField
+  rcases splitAssign x with ⟨n, ov⟩
+  cases ov with
+  | none => exact attrLoop_sim h n _ sv.attrs _ _ (h.step s t _ hR).1
+  | some v =>
+    obtain ⟨s1, t1, r, hI, hJ, hr⟩ := step_case_sim h (.assign n sv.scope.toScope (.scalar v) none) s t hR
+    simp only [hI, hJ]
+    cases r <;> first | exact ⟨hr, rfl⟩ | exact attrLoop_sim h n _ sv.attrs s1 t1 hr
+
+theorem execute_sim (h : Sim R I J) (sv : SetVariables) (s : σ) (t : τ) (hR : R s t) :
+    R (sv.execute I s).1 (sv.execute J t).1 ∧ (sv.execute I s).2 = (sv.execute J t).2 :=
+  foldErrors_sim _ _ (fun s t x hr => executeField_sim h sv s t x hr) sv.variables s t 0 hR
+
+theorem typesetMain_sim (h : Sim R I J) (occs : List OptOcc) (operands : List String) (s : σ) (t : τ) (hR : R s t) :
+    R (typesetMain I occs operands s).1 (typesetMain J occs operands t).1 ∧
+    (typesetMain I occs operands s).2 = (typesetMain J occs operands t).2 :=
+  execute_sim h _ s t hR
+
+theorem readAssign_sim (h : Sim R I J) (s : σ) (t : τ) (x : Name × Value) (hR : R s t) :
+    R (readAssign I s x).1 (readAssign J t x).1 ∧ (readAssign I s x).2 = (readAssign J t x).2 := by
+  unfold readAssign
+  obtain ⟨s1, t1, r, hI, hJ, hr⟩ := step_case_sim h (.assign x.1 .global x.2 none) s t hR
+  simp only [hI, hJ]
+  cases r <;> exact ⟨hr, rfl⟩
+
+theorem unsetVariable_sim (h : Sim R I J) (s : σ) (t : τ) (n : Name) (hR : R s t) :
+    R (unsetVariable I s n).1 (unsetVariable J t n).1 ∧ (unsetVariable I s n).2 = (unsetVariable J t n).2 := by
+  unfold unsetVariable
+  obtain ⟨s1, t1, r, hI, hJ, hr⟩ := step_case_sim h (.unset n .global) s t hR
+  simp only [hI, hJ]
+  cases r <;> exact ⟨hr, rfl⟩
+
+theorem unwindAll_sim (h : Sim R I J) (s : σ) (t : τ) (hR : R s t) : R (unwindAll I s) (unwindAll J t) := by
+  unfold unwindAll
+  generalize List.replicate 8 Op.pop = ops
+  induction ops generalizing s t with
+  | nil => exact hR
+  | cons op ops ih => exact ih _ _ (h.step s t op hR).1
+
+theorem endLine_sim (h : Sim R I J) (s : σ) (t : τ) (st : Status) (hR : R s t) : endLine I s st = endLine J t st := by
+  have hu := unwindAll_sim h s t hR
+  simp only [endLine, showState, h.get _ _ _ hu, h.params _ _ hu]
+
 theorem printLines_sim (h : Sim R I J) (b : String) (opts names : List String) (s : σ) (t : τ) (hR : R s t) :
     printLines I s b opts names = printLines J t b opts names := by
   simp only [printLines, h.getIn s t _ _ hR]
@@ -154,7 +253,70 @@ theorem execStmts_sim (h : Sim R I J) (funs : List (String × List Stmt)) :
             · exact ⟨hr0, rfl⟩
       | ret => simp only []; exact ⟨hR, trivial⟩
       | bad => simp only []; exact ⟨hR, trivial⟩
-      | typeset temps sc opts operands =>
+      | decl as attr operands =>
+        obtain ⟨hr0, hb0⟩ := runAssigns_sim h .global false as s t hR
+        simp only []
+        cases hI0 : runAssigns I .global false s as with
+        | mk s0 b0 =>
+          cases hJ0 : runAssigns J .global false t as with
+          | mk t0 c0 =>
+            rw [hI0, hJ0] at hr0 hb0
+            simp only at hr0 hb0
+            subst hb0
+            cases b0
+            · simp only []
+              obtain ⟨hr, hb⟩ := execute_sim h ⟨operands, (interpretLoop []).attrs ++ [(attr, true)], .global⟩ s0 t0 hr0
+              simp only [declMain]
+              cases hI : SetVariables.execute I ⟨operands, (interpretLoop []).attrs ++ [(attr, true)], .global⟩ s0 with
+              | mk s1 e =>
+                cases hJ : SetVariables.execute J ⟨operands, (interpretLoop []).attrs ++ [(attr, true)], .global⟩ t0 with
+                | mk t1 e' =>
+                  rw [hI, hJ] at hr hb
+                  simp only at hr hb
+                  subst hb
+                  cases e
+                  · exact fin s1 t1 _ hr
+                  · exact ⟨hr, rfl⟩
+            · exact ⟨hr0, rfl⟩
+      | unsetv names =>
+        obtain ⟨hr, hb⟩ := foldErrors_sim _ _ (fun s t x hr => unsetVariable_sim h s t x hr) names s t 0 hR
+        simp only [unsetVariables]
+        cases hI : foldErrors (unsetVariable I) names (s, 0) with
+        | mk s1 e =>
+          cases hJ : foldErrors (unsetVariable J) names (t, 0) with
+          | mk t1 e' =>
+            rw [hI, hJ] at hr hb
+            simp only at hr hb
+            subst hb
+            cases e
+            · exact fin s1 t1 _ hr
+            · exact ⟨hr, rfl⟩
+      | write kind targets =>
+        simp only []
+        split
+        · obtain ⟨hr, hb⟩ := foldErrors_sim _ _ (fun s t x hr => readAssign_sim h s t x hr) targets s t 0 hR
+          cases hI : foldErrors (readAssign I) targets (s, 0) with
+          | mk s1 e =>
+            cases hJ : foldErrors (readAssign J) targets (t, 0) with
+            | mk t1 e' =>
+              rw [hI, hJ] at hr hb
+              simp only at hr hb
+              subst hb
+              exact fin s1 t1 _ hr
+        · simp only [h.get s t _ hR]
+          generalize (if kind = "def" then targets.filter (fun x => ((J.get t x.1).bind (·.value)).isNone) else targets) = tg
+          obtain ⟨hr, hb⟩ := runOps_sim h (tg.map fun x => Op.assign x.1 .global x.2 none) s t hR
+          cases hI : runOps I s (tg.map fun x => Op.assign x.1 .global x.2 none) with
+          | mk s1 b =>
+            cases hJ : runOps J t (tg.map fun x => Op.assign x.1 .global x.2 none) with
+            | mk t1 c =>
+              rw [hI, hJ] at hr hb
+              simp only at hr hb
+              subst hb
+              cases b
+              · exact fin s1 t1 _ hr
+              · exact ⟨hr, rfl⟩
+      | typeset temps occs operands =>
         obtain ⟨hr, hb⟩ := runAssigns_sim h .volatile true temps _ _ (h.step s t (.push .volatile) hR).1
         simp only []
         cases hI : runAssigns I .volatile true (I.step s (.push .volatile)).1 temps with
@@ -165,9 +327,10 @@ theorem execStmts_sim (h : Sim R I J) (funs : List (String × List Stmt)) :
             simp only at hr hb
             subst hb
             cases b
-            · simp only []
-              apply fin
-              exact (h.step _ _ _ (typesetFold_sim h sc opts operands _ _ hr)).1
+            · obtain ⟨hr2, hb2⟩ := typesetMain_sim h occs operands s1 t1 hr
+              simp only []
+              rw [hb2]
+              exact fin _ _ _ (h.step _ _ _ hr2).1
             · exact ⟨hr, rfl⟩
       | print b opts names =>
         simp only [h.getIn s t _ _ hR]
